@@ -288,6 +288,84 @@ Definition m_log (tab : list (list (option Z))) (caps : list (Z * list (nat * na
   | Err e m => TL (err_tree e :: map entry (rev m))
   end.
 
+(* ---- capability OBJECTS (fn 4, 5, 6, 7).  An object is (kind description args); its identity is its POSITION
+   in the list of objects (the *Capability pointer), never its description (capability.go: "The description
+   is optional and not used by this package"), so neither the model nor the specification ever looks at the
+   description when answering Has.  kind 0: NewCapability(description, args...) with args a flat list of
+   version strings; kind 1 / 2: struct literal &Capability{Description, VersionRanges} with args a list of
+   (lo hi) pairs (kind 2: VersionRanges left nil).  A target lists objects by position ("slots"); the same
+   object may be listed several times, objects that are not listed are not registered. *)
+Definition pair_of (p : tree) : nat * nat := (t_nat (t_nth 0 p), t_nat (t_nth 1 p)).
+Definition obj_ranges (pairing : list nat -> list (nat * nat)) (o : tree) : list (nat * nat) :=
+  match t_int (t_nth 0 o) with
+  | 0 => pairing (map t_nat (t_list (t_nth 2 o)))
+  | _ => map pair_of (t_list (t_nth 2 o))
+  end.
+Definition obj_ids {A} (objs : list A) : list Z := map Z.of_nat (seq 0 (length objs)).
+Definition caps_of (objs : list (list (nat * nat))) (slots : list Z) : list (Z * list (nat * nat)) :=
+  map (fun s => (s, nth (Z.to_nat s) objs [])) slots.
+Definition slots_of (t : tree) : list Z := map t_int (t_list t).
+Fixpoint upd {A} (n : nat) (f : A -> A) (l : list A) : list A :=
+  match l, n with
+  | [], _ => []
+  | x :: r, O => f x :: r
+  | x :: r, S k => x :: upd k f r
+  end.
+
+Definition m_objs (t : tree) : list (list (nat * nat)) :=
+  map (obj_ranges (new_capability nat g_is_empty g_empty)) (t_list t).
+
+(* Target.Version(v), then Has for EVERY object (listed or not) *)
+Definition m_version_obj (tab : list (list (option Z))) (objs : list (list (nat * nat))) (caps : list (Z * list (nat * nat))) (v : nat) : tree :=
+  match version_of nat g_is_empty (g_cmp tab) v caps with
+  | Ok m => TL [TI 0; TL (map (fun k => of_bool (has m k)) (obj_ids objs))]
+  | Err e _ => err_tree e
+  end.
+
+(* a script of calls on ONE Version object (fn 5).  ops: (0 obj b) SetCapability, (1 obj) Has, (2 cmpid slots)
+   Target{cmp, slots}.SetCapabilities(version), (3) VersionString, (4 obj) Has on a copy of the DefaultVersion
+   value, (5 obj b) SetCapability through a pointer to such a copy (the copy shares the map), (6 obj lo hi)
+   append VersionRange{lo, hi} to the object's VersionRanges.  State: the objects' ranges and the calls made. *)
+Definition st_m : Type := (list (list (nat * nat)) * log)%type.
+Definition m_step (alive : bool) (v : nat) (st : st_m) (op : tree) : st_m * tree :=
+  let '(objs, m) := st in
+  let a := t_int (t_nth 1 op) in
+  match t_int (t_nth 0 op) with
+  | 0 | 5 => match dv_set alive m a (t_bool (t_nth 2 op)) with
+             | Some m' => ((objs, m'), TL [TI 0])
+             | None => (st, TL [TI (-1)])
+             end
+  | 1 | 4 => (st, TL [of_bool (has m a)])
+  | 2 => let caps := caps_of objs (slots_of (t_nth 2 op)) in
+         match set_capabilities_on nat g_is_empty (g_cmp (tab_of a)) alive v caps m with
+         | SRes (Ok m') => ((objs, m'), TL [TI 0])
+         | SRes (Err e m') => ((objs, m'), err_tree e)
+         | SPanic => (st, TL [TI (-1)])
+         end
+  | 3 => (st, TL [n_tree v])
+  | 6 => ((upd (Z.to_nat a) (fun rs => rs ++ [(t_nat (t_nth 2 op), t_nat (t_nth 3 op))]) objs, m), TL [])
+  | _ => (st, tbad)
+  end.
+Fixpoint m_script (alive : bool) (v : nat) (st : st_m) (ops : list tree) : list tree :=
+  match ops with
+  | [] => []
+  | op :: r => let '(st', o) := m_step alive v st op in o :: m_script alive v st' r
+  end.
+(* version kind 3 is the zero value &DefaultVersion{} (nil map), every other kind wraps NewDefaultVersion *)
+Definition alive_of (vkind : Z) : bool := negb (vkind =? 3).
+
+(* VersionRange.String() = '%s' -> '%s';  Capability.String() = Capability %s -> (r1, r2, ...) *)
+Definition quote_s (s : list Z) : list Z := 39 :: s ++ [39].
+Definition arrow_s : list Z := [32; 45; 62; 32].
+Definition range_str (r : nat * nat) : list Z := quote_s (g_str (fst r)) ++ arrow_s ++ quote_s (g_str (snd r)).
+Fixpoint join_s (sep : list Z) (l : list (list Z)) : list Z :=
+  match l with
+  | [] => []
+  | x :: r => match r with [] => x | _ => x ++ sep ++ join_s sep r end
+  end.
+Definition cap_str (desc : list Z) (rstrs : list (list Z)) : list Z :=
+  [67; 97; 112; 97; 98; 105; 108; 105; 116; 121; 32] ++ desc ++ arrow_s ++ [40] ++ join_s [44; 32] rstrs ++ [41].
+
 Definition run (fn : Z) (i : tree) : tree :=
   match fn with
   | 1 => let tab := tab_of (t_int (t_nth 0 i)) in
@@ -298,6 +376,16 @@ Definition run (fn : Z) (i : tree) : tree :=
   | 3 => let tab := tab_of (t_int (t_nth 0 i)) in
          let caps := m_caps (caps_args (t_nth 1 i)) in
          TL (map (fun v => m_log tab caps (t_nat v)) (t_list (t_nth 2 i)))
+  | 4 => let tab := tab_of (t_int (t_nth 0 i)) in
+         let objs := m_objs (t_nth 1 i) in
+         let caps := caps_of objs (slots_of (t_nth 2 i)) in
+         TL (map (m_version_obj tab objs caps) grid_indices)
+  | 5 => TL (m_script (alive_of (t_int (t_nth 0 i))) (t_nat (t_nth 1 i)) (m_objs (t_nth 2 i), []) (t_list (t_nth 3 i)))
+  | 6 => let rs := obj_ranges (new_capability nat g_is_empty g_empty) i in
+         TL [TB (cap_str (t_bytes (t_nth 1 i)) (map range_str rs)); TL (map (fun r => TB (range_str r)) rs)]
+  | 7 => let tab := tab_of (t_int (t_nth 0 i)) in
+         let caps := caps_of (m_objs (t_nth 1 i)) (slots_of (t_nth 2 i)) in
+         TL (map (fun v => m_log tab caps (t_nat v)) (t_list (t_nth 3 i)))
   | 9 => of_option TI (g_cmp (tab_of (t_int (t_nth 0 i))) (t_nat (t_nth 1 i)) (t_nat (t_nth 2 i)))
   | _ => tbad
   end.
@@ -354,6 +442,77 @@ Definition s_log (tab : list (list (option Z))) (caps : list (Z * list (nat * na
   | [] => false
   end.
 
+(* ---- capability objects, specification side.  Every answer is judged per OBJECT: an object that is listed
+   is reported exactly when the version lies in one of ITS ranges, an object that is not listed never. *)
+Definition s_objs (t : tree) : list (list (nat * nat)) :=
+  map (obj_ranges (pair_up nat g_is_empty g_empty)) (t_list t).
+
+Definition s_version_obj (tab : list (list (option Z))) (objs : list (list (nat * nat))) (slots : list Z) (v : nat) (o : tree) : bool :=
+  let caps := caps_of objs slots in
+  match target_spec nat g_is_empty (g_cmp tab) v caps with
+  | Some _ =>
+      tree_eqb o (TL [TI 0; TL (map (fun k => of_bool (existsb (Z.eqb k) slots &&
+                                                       has_spec nat g_is_empty (g_cmp tab) v (nth (Z.to_nat k) objs [])))
+                                    (obj_ids objs))])
+  | None => error_acceptable tab caps v o
+  end.
+
+(* what is known about the answers of a Version object: (object, Some answer) or (object, None) = not
+   determined by the text (calls made before an error was reported); newest first; no entry = never set *)
+Definition known : Type := list (Z * option bool).
+Fixpoint k_get (k : known) (id : Z) : option bool :=
+  match k with
+  | [] => Some false
+  | (j, x) :: r => if j =? id then x else k_get r id
+  end.
+Definition st_s : Type := (list (list (nat * nat)) * known)%type.
+Definition is_ok_tree (o : tree) : bool := tree_eqb o (TL [TI 0]).
+Definition is_panic_tree (o : tree) : bool := tree_eqb o (TL [TI (-1)]).
+Definition with_ranges (caps : list (Z * list (nat * nat))) : list (Z * list (nat * nat)) :=
+  filter (fun c => negb (is_nil (snd c))) caps.
+
+(* Has answers the latest SetCapability for THAT object (false when there was none).  SetCapabilities gives
+   every listed object that has ranges the answer of the specification and leaves every other object alone.
+   A panic is tolerated only from the zero value DefaultVersion{} (outside the property; compared with the
+   model only) and must leave the answers unchanged. *)
+Definition s_step (alive : bool) (v : nat) (st : st_s) (op o : tree) : option st_s :=
+  let '(objs, k) := st in
+  let a := t_int (t_nth 1 op) in
+  match t_int (t_nth 0 op) with
+  | 0 | 5 => if is_ok_tree o then Some (objs, (a, Some (t_bool (t_nth 2 op))) :: k)
+             else if negb alive && is_panic_tree o then Some st else None
+  | 1 | 4 => match k_get k a with
+             | Some b => if tree_eqb o (TL [of_bool b]) then Some st else None
+             | None => if tree_eqb o (TL [TI 0]) || tree_eqb o (TL [TI 1]) then Some st else None
+             end
+  | 2 => let caps := caps_of objs (slots_of (t_nth 2 op)) in
+         let tab := spec_tab_of a in
+         if negb alive && is_panic_tree o then Some st
+         else match target_spec nat g_is_empty (g_cmp tab) v caps with
+              | Some bits =>
+                  if is_ok_tree o
+                  then Some (objs, map (fun cb => (fst (fst cb), Some (snd cb))) (filter (fun cb => negb (is_nil (snd (fst cb)))) (combine caps bits)) ++ k)
+                  else None
+              | None =>
+                  if error_acceptable tab caps v o
+                  then Some (objs, map (fun c => (fst c, None)) (with_ranges caps) ++ k)
+                  else None
+              end
+  | 3 => if tree_eqb o (TL [n_tree v]) then Some st else None
+  | 6 => if tree_eqb o (TL []) then Some (upd (Z.to_nat a) (fun rs => rs ++ [(t_nat (t_nth 2 op), t_nat (t_nth 3 op))]) objs, k)
+         else None
+  | _ => None
+  end.
+Fixpoint s_script (alive : bool) (v : nat) (st : st_s) (ops outs : list tree) : bool :=
+  match ops, outs with
+  | [], [] => true
+  | op :: r, o :: r' => match s_step alive v st op o with
+                        | Some st' => s_script alive v st' r r'
+                        | None => false
+                        end
+  | _, _ => false
+  end.
+
 Fixpoint forallb2 {A B} (f : A -> B -> bool) (a : list A) (b : list B) : bool :=
   match a, b with
   | [], [] => true
@@ -370,6 +529,18 @@ Definition spec (fn : Z) (i o : tree) : bool :=
   | 3 => let tab := spec_tab_of (t_int (t_nth 0 i)) in
          let caps := s_caps (caps_args (t_nth 1 i)) in
          forallb2 (fun v => s_log tab caps (t_nat v)) (t_list (t_nth 2 i)) (t_list o)
+  | 4 => let tab := spec_tab_of (t_int (t_nth 0 i)) in
+         let objs := s_objs (t_nth 1 i) in
+         let slots := slots_of (t_nth 2 i) in
+         forallb2 (s_version_obj tab objs slots) grid_indices (t_list o)
+  | 5 => s_script (alive_of (t_int (t_nth 0 i))) (t_nat (t_nth 1 i)) (s_objs (t_nth 2 i), []) (t_list (t_nth 3 i)) (t_list o)
+  | 6 => let rs := obj_ranges (pair_up nat g_is_empty g_empty) i in
+         let rstrs := map t_bytes (t_list (t_nth 1 o)) in
+         forallb2 (fun r t => list_Z_eqb t (range_str r)) rs rstrs &&
+         list_Z_eqb (t_bytes (t_nth 0 o)) (cap_str (t_bytes (t_nth 1 i)) rstrs)
+  | 7 => let tab := spec_tab_of (t_int (t_nth 0 i)) in
+         let caps := caps_of (s_objs (t_nth 1 i)) (slots_of (t_nth 2 i)) in
+         forallb2 (fun v => s_log tab caps (t_nat v)) (t_list (t_nth 3 i)) (t_list o)
   | 9 => let a := g_str (t_nat (t_nth 1 i)) in
          let b := g_str (t_nat (t_nth 2 i)) in
          let r := match o with TL [TI z] => Some (Some z) | TL [] => Some None | _ => None end in
